@@ -1,7 +1,7 @@
 (* C06 -- Buffer shifts, bitwise operators, value() and chunking follow the bit model.
    Model: theories/Buffer.v.  Only statements; proofs in theories/BufferSpec.v. *)
 From Coq Require Import ZArith List Bool.
-From MS Require Import PyBase Buffer Bits ByteFacts BufferAbs BufferSpec Compute.
+From MS Require Import PyBase Buffer Bits ByteFacts BufferAbs BufferSpec Compute BufferHeap BufferHeapSpec BufferHeapBits.
 Import ListNotations.
 Open Scope Z_scope.
 
@@ -40,6 +40,27 @@ Example c06_ex :
   chunks 4 true [true; false; true; true; true] = [[true; false; true; true]; [true; false; false; false]].
 Proof. vm_compute. repeat split; reflexivity. Qed.
 
+(* the same on Buffer OBJECTS (heap model BufferHeap.v): not in place a new object and the heap otherwise as it was; in place the receiver holds the result and no other object changed; the operands of & | ^ may be one object *)
+Theorem c06_shift_left_objects r s ip h b : nth_error h r = Some b -> canon b -> 0 <= s ->
+  exists v, canon v /\ bside v = bside b /\ abs v = abs b ++ repeat false (Z.to_nat s) /\
+            h_shift r (- s) ip h = (if ip then (Ok r, upd h r v) else (Ok (length h), h ++ [v])).
+Proof. exact (obj_shift_left r s ip h b). Qed.
+Theorem c06_shift_right_objects r s ip h b : nth_error h r = Some b -> canon b -> 0 <= s ->
+  exists v, canon v /\ bside v = bside b /\ abs v = firstn (Z.to_nat (blen b - s)) (abs b) /\
+            h_shift r s ip h = (if ip then (Ok r, upd h r v) else (Ok (length h), h ++ [v])).
+Proof. exact (obj_shift_right r s ip h b). Qed.
+Theorem c06_and_objects a b h ab bb : nth_error h a = Some ab -> nth_error h b = Some bb -> canon ab -> canon bb -> blen ab = blen bb ->
+  exists x v h', h_and a b h = (Ok x, h') /\ extends h h' /\ nth_error h' x = Some v /\ canon v /\ bside v = bside ab /\
+                 abs v = map2 andb (abs ab) (abs bb).
+Proof. exact (obj_and a b h ab bb). Qed.
+Theorem c06_or_objects a b h ab bb : nth_error h a = Some ab -> nth_error h b = Some bb -> canon ab -> canon bb -> blen ab = blen bb ->
+  exists x v h', h_or a b h = (Ok x, h') /\ extends h h' /\ nth_error h' x = Some v /\ canon v /\ bside v = bside ab /\
+                 abs v = map2 orb (abs ab) (abs bb).
+Proof. exact (obj_or a b h ab bb). Qed.
+Theorem c06_xor_objects a b h ab bb : nth_error h a = Some ab -> nth_error h b = Some bb -> canon ab -> canon bb -> blen ab = blen bb ->
+  exists x v h', h_xor a b h = (Ok x, h') /\ extends h h' /\ nth_error h' x = Some v /\ canon v /\ bside v = bside ab /\
+                 abs v = map2 xorb (abs ab) (abs bb).
+Proof. exact (obj_xor a b h ab bb). Qed.
 Print Assumptions c06_shift_left.
 Print Assumptions c06_shift_right.
 Print Assumptions c06_and.
@@ -49,3 +70,8 @@ Print Assumptions c06_len_mismatch.
 Print Assumptions c06_invert.
 Print Assumptions c06_value.
 Print Assumptions c06_chunks.
+Print Assumptions c06_shift_left_objects.
+Print Assumptions c06_shift_right_objects.
+Print Assumptions c06_and_objects.
+Print Assumptions c06_or_objects.
+Print Assumptions c06_xor_objects.
